@@ -104,8 +104,6 @@ def oracle_entry(spec, e):
             v.append((dict(base, **{"class": "rehash-mismatch"}),
                       "hash recomputed from the round-tripped content and the previous hash is %s (id %s), stored %s (id %s)" % (
                           e.get("rehash"), e.get("reid"), e["hash"], e["id"])))
-    if excl == "log-date-not-from-Now":
-        return v  # ToCore converts the log date to UTC; log dates come from Now() (UTC)
     r = e.get("row", {})
     if "ok" not in r:
         v.append((dict(base, **{"class": "store-decode-panic", "cause": cause_of(r.get("panic"))}), "Logs.ToCore panics on the stored row: %s" % r.get("panic")))
@@ -139,12 +137,46 @@ def oracle(inp, out):
         rp = out.get("reparse", {})
         if "ok" not in rp or rp["ok"] != out["ok"]:
             t = out["ok"]
-            cause = "year>9999" if t[0] > 9999 else ("offset>=25h" if abs(t[7]) >= 90000 else "other")
+            cause = "year>9999" if t[0] > 9999 else "year<0" if t[0] < 0 else ("offset>=25h" if abs(t[7]) >= 90000 else "other")
             v.append(({"class": "timestamp-unreadable", "cause": cause},
                       "ParseTime accepts %r, writes it as %s, and cannot read that back (%s)" % (inp["s"], out.get("fmt"), rp), None))
         if out["ok"][6] % 1000 != 0:
             v.append(({"class": "timestamp-precision"}, "ParseTime(%r) is not on a microsecond" % inp["s"], None))
+        # the accepted time is the instant the text denotes (rounded to the microsecond, halves up), whatever offset it was written with
+        want = instant_of_text(inp["s"])
+        got = (int(out["unix"][0]), out["unix"][1]) if "unix" in out else None
+        if want is not None and got != want:
+            v.append(({"class": "timestamp-instant-changed"},
+                      "ParseTime(%r) denotes the instant %s s + %s ns, the text denotes %s s + %s ns" % (inp["s"], got and got[0], got and got[1], want[0], want[1]), None))
     return v
+
+
+def days_from_civil(y, m, d):
+    """days since 1970-01-01 of a proleptic Gregorian date — written from the calendar rules (365 days, a leap day every 4th year except
+    centuries not divisible by 400), not from the formula the Lean model uses"""
+    def leap(yy):
+        return yy % 4 == 0 and (yy % 100 != 0 or yy % 400 == 0)
+    yy = y - 1    # whole years since 0001-01-01
+    n = yy * 365 + yy // 4 - yy // 100 + yy // 400
+    n += sum((31, 29 if leap(y) else 28, 31, 30, 31, 30, 31, 31, 30, 31, 30, 31)[:m - 1]) + d - 1
+    return n - 719162   # 1970-01-01 is day 719162 after 0001-01-01
+
+
+STRICT_TS = re.compile(r"(\d{4})-(\d\d)-(\d\d)T(\d\d):(\d\d):(\d\d)(?:[.,](\d+))?(Z|[+-]\d\d:\d\d)\Z")
+
+
+def instant_of_text(s):
+    """(unix seconds, nanoseconds) of an RFC 3339 text after rounding to the microsecond; None for shapes outside the strict pattern"""
+    m = STRICT_TS.match(s)
+    if not m:
+        return None
+    y, mo, d, h, mi, sec = (int(x) for x in m.groups()[:6])
+    ns = int((m.group(7) or "0")[:9].ljust(9, "0"))
+    z = m.group(8)
+    off = 0 if z == "Z" else (1 if z[0] == "+" else -1) * (int(z[1:3]) * 3600 + int(z[4:6]) * 60)
+    total = (days_from_civil(y, mo, d) * 86400 + h * 3600 + mi * 60 + sec - off) * 10 ** 9 + ns
+    total = (total + 500) // 1000 * 1000
+    return total // 10 ** 9, total % 10 ** 9
 
 
 # ---------------------------------------------------------------- counters
@@ -342,8 +374,9 @@ def run(ctx):
         "strings are valid UTF-8 (the API decodes JSON, which guarantees it); Lean strings are Unicode scalar sequences",
         "transaction ids in set/delete-metadata targets are in [0, 2^64): ids are allocated sequentially from 0 (the excluded points 2^64, 2^70, -1 are "
         "run on the real code: ParseUint error, as the model predicts; not counted as violations)",
-        "log dates are produced by Now() (UTC, microsecond): Logs.ToCore converts the date to UTC, which would change the hashed text of a date that "
-        "carried an offset (excluded point run on the real code and predicted by the model; transaction timestamps keep their offset and are covered)",
+        "every ledger.Time the engine handles is UTC on a microsecond: Now() and ParseTime produce nothing else (accepted_wf), so Logs.ToCore's "
+        "conversion of the log date to UTC is the identity; a log date given as text with an offset goes through ParseTime like a transaction timestamp "
+        "and is covered (no longer an excluded point)",
         "an idempotency key that is not valid UTF-8 (possible only through the raw Idempotency-Key header; every other string comes out of a JSON "
         "body or a validated address) is outside the model: encoding/json writes the escape \\ufffd for the bad bytes, the decoded key is U+FFFD and "
         "re-marshals differently, so key and recomputed hash both differ (observed on each run: coverage.excluded_points_observed). Not counted as a "
